@@ -14,7 +14,7 @@ from ..ref import tables as T
 
 # 70-character alphabet: every character of any version's grammar, other-case forms, blanks,
 # NUL, '.', digits, '-', '_', a Latin-1 letter and the fullwidth colon / solidus.
-ALPHABET = sorted(set("ACDEFGHILMNOPRSTUVWXYabcdeglmnrux:/.0134 \t\n\0-_2é：／"))
+ALPHABET = sorted(set("ACDEFGHILMNOPRSTUVWXYabcdeglmnrux:/.0134 \t\n\0-_2é：／１¹٠()"))
 
 MALFORMED_FIELDS = ["", "AV", "AV:", ":N", "AV:N:N", "AV::N", "av:n", " AV:N", "AV:N ", "AV=N",
                     "AV:NN", "CVSS:3.1", "CVSS:4.0", "X"]
@@ -63,7 +63,11 @@ def seeds(n_per_family):
 
 PREFIXES = ["CVSS:3.0/", "CVSS:3.1/", "CVSS:4.0/", "CVSS:3.2/", "CVSS:3.10/", "cvss:3.1/", "CVSS:3.1",
             "CVSS:2.0/", "CVSS:3/", "CVSS:4.1/", "CVSS:3.1//", "CVSS:3.1/CVSS:3.1/", "", "/",
-            "CVSS:4.0/CVSS:4.0/", "CVSS:3.0/CVSS:3.1/", " CVSS:3.1/", "CVSS:3.١/"]
+            "CVSS:4.0/CVSS:4.0/", "CVSS:3.0/CVSS:3.1/", " CVSS:3.1/", "CVSS:3.١/",
+            # other characters that str.isdigit() / \\d / int() take for the digits of a version:
+            # full-width, superscript, circled, Devanagari, mathematical bold
+            "CVSS:3.\uff10/", "CVSS:4.\uff10/", "CVSS:\uff13.1/", "CVSS:\uff14.0/", "CVSS:3.\u00b9/", "CVSS:3.\u2460/",
+            "CVSS:3.\u0966/", "CVSS:3.\U0001d7cf/", "CVSS:4.\u0660/", "CVSS\uff1a3.1/", "CVSS:3\uff0e1/"]
 
 
 def split_prefix(s):
@@ -119,9 +123,36 @@ def field_edits(s, small=False):
         yield p + body
 
 
+WRAPS = [("(", ")"), ("[", "]"), ("{", "}"), ("<", ">"), ('"', '"'), ("'", "'"), ("`", "`"), (" ", " "),
+         ("\n", "\n"), ("\t", " "), ("*", "*"), ("_", "_"), ("((", "))"), ("(", ")."), ("CVSS(", ")"), ("\ufeff", ""),
+         ("\u200b", "\u200b"), ("\u00a0", "\u00a0")]
+
+
+def wrap_edits(s):
+    """One edit at BOTH ends at once: the way vectors are quoted in reports and feeds (brackets,
+    quotes, emphasis marks, blanks, a byte-order mark) - a lenient "clean-up" of the argument shows
+    here and nowhere in the one-edit neighbourhood. Also around the body behind the prefix and
+    around single fields."""
+    for l, r in WRAPS:
+        yield l + s + r
+    prefix, body = split_prefix(s)
+    if prefix:
+        for l, r in WRAPS[:8]:
+            yield prefix + l + body + r
+    fields = body.split("/")
+    for i in (0, len(fields) // 2, len(fields) - 1):
+        for l, r in WRAPS[:8]:
+            yield prefix + "/".join(fields[:i] + [l + fields[i] + r] + fields[i + 1:])
+            if ":" in fields[i]:
+                m, v = fields[i].split(":", 1)
+                yield prefix + "/".join(fields[:i] + [m + ":" + l + v + r] + fields[i + 1:])
+
+
 def neighbours(s, level):
     if level == 0:
         for t in char_edits(s):
+            yield t
+        for t in wrap_edits(s):
             yield t
     for t in field_edits(s):
         yield t
